@@ -102,6 +102,9 @@ func runC11(ctx *core.Ctx) {
 	ctx.Rule("R4", "no shared in-process state: no function reachable from Put/Get/GetFile/GetBytes/OutputFile stores to a field of Cache or to a package-level variable unless a package mutex is definitely held", 1)
 	ctx.Rule("R2", "data file committed by its last byte (C12.P1, re-checked here in summary form): the only direct write to the data file is dominated by the digest comparison", 1)
 	reuseAfterRehash(ctx, "R3")
+	putAlwaysCopies(ctx, "R10")
+	lookupsShareNothing(ctx, "R11")
+	lookupsReadOnly(ctx, "R12")
 	c12PutOrder(ctx, "R6")
 
 	indexRewriteRules(ctx)
